@@ -118,6 +118,14 @@ public:
 
   void rollback();
 
+  /* The declarations made by a compilation unit take effect while it is
+   * parsed. They are recorded until the unit is accepted, so that a unit
+   * rejected further on leaves the declared functions as they were.
+   */
+  size_t unitMark() const { return _unit.size(); }
+  void unitCommit(size_t mark) { if (mark == 0) _unit.clear(); }
+  void unitAbort(size_t mark);
+
   Entry& getDeclaration(unsigned id)
   {
     return _declarations[id];
@@ -176,6 +184,14 @@ private:
   Context& _root;
   container _declarations;
   FunctorPtr _backed;
+
+  struct Change
+  {
+    std::string name;
+    size_t arity;
+    FunctorPtr prev;    /* the declaration replaced, or null for a new one */
+  };
+  std::vector<Change> _unit;
 };
 
 }
